@@ -322,7 +322,9 @@ PROPS["C07"] = {
     "facts": ["App.Run", "App.connectDCS", "App.newDBCluster"],
     "lean": ["MysyncProofs.C07", "MysyncProofs.C07World"],
     # the real procedure run by run: master key last and after promotion, the list published at promotion (what a successor judges the request against)
-    "go": [("internal/app", "^TestVerifC07$"), ("internal/app", "^TestVerifC01$")],
+    "go": [("internal/app", "^TestVerifC07$"), ("internal/app", "^TestVerifC01$"),
+           # the manager iteration around the procedure: a request whose attempt did not reach its end stays in place for the next manager
+           ("internal/app", "^TestVerifC06$")],
     "level": "proof",
     "components": _SIM_COMPONENTS + ["MysyncModel/App/Switchover.lean + SwitchLifecycle.lean (the procedure as an ordered step list over oracle outcomes; a crash is a prefix)",
                                          "MysyncModel/App/SwitchWorld.lean (effect of every step on a world of servers and coordination keys; the oracle inputs of the successor's run are read off the world the crash left behind)"],
